@@ -2644,6 +2644,12 @@ class KmipEngine(object):
                         )
                     )
 
+                if encryption_key_params is None:
+                    raise exceptions.InvalidField(
+                        "The cryptographic parameters of the encryption key "
+                        "information must be specified for key wrapping."
+                    )
+
                 self._logger.info("Wrapping {0} {1} with {2} {3}.".format(
                     ''.join([x.capitalize() for x in object_type.split('_')]),
                     managed_object.unique_identifier,
